@@ -186,6 +186,8 @@ async def scenario(ctx, case, labels):
             if lo > 0:
                 labels.add("read_into_leftover")
                 labels.add("into_leftover_ge_n" if lo >= spec[1] else "into_leftover_lt_n")
+                labels.add("into%s_leftover_%s_n" % ("_partial" if spec[2] else "",
+                                                     "lt" if lo < spec[1] else "eq" if lo == spec[1] else "gt"))
         if st_["ended"]:
             labels.add("read_issued_after_end")
         if st_["fed"] == st_["cursor"] and not st_["ended"]:
